@@ -49,6 +49,7 @@ structure St where
   gcSpec : Option Spec.KV := none                          -- the reference map when the GC pass began (C07)
   gcPre : Option (Store.Bucket × Nat × Nat) := none        -- the bucket model before the pass, and the resolved range
   groups : List (List Bytes) := []                         -- mix collide (C13): keys forced onto one key hash; the model is not compared
+  safe : Bool := false                                     -- mix collide-safe: every colliding key was written and read once first; no known finding applies
   phase : String := "plain"                                -- mix collide: the strongest structural event of the case so far (plain < reload < rebuild < gc)
 
 def depthOf (nb : Nat) : Nat := if nb ≥ 256 then 2 else if nb ≥ 16 then 1 else 0
@@ -181,8 +182,8 @@ def run (lines : Array String) : IO Report := do
         cases := cases + 1
         caseNontrivial := false
     | ["open"] => st := { st with active := false }
-    | ["groups", gs] =>
-        st := { st with groups := (gs.splitOn ";").map fun g => (g.splitOn ",").map unhex }
+    | "groups" :: gs :: more =>
+        st := { st with groups := (gs.splitOn ";").map fun g => (g.splitOn ",").map unhex, safe := more.contains "safe" }
     | _ =>
     if !st.active then continue
     -- mix collide: every key of a group has the key hash of the group's first key
@@ -219,7 +220,7 @@ def run (lines : Array String) : IO Report := do
             let plain := plainSize k.length body.length
             let mayCompress : Bool := decide (plain > 256) && (flag.toNat! &&& 0x10) == 0 && (flag.toNat! &&& 0x10000) == 0
             if !(size == plain || (mayCompress && decide (size < plain) && size % 256 == 0 && decide (size > 0))) then
-              if colliding k then diff rep ln "oracle" s!"case={cid} key=C13/write-path-takes-other-keys-item set of a colliding key acknowledged but {size} bytes written (plain {plain})"
+              if colliding k then diff rep ln "oracle" s!"case={cid} key=C13/{if st.safe then "safe/" else ""}write-path-takes-other-keys-item set of a colliding key acknowledged but {size} bytes written (plain {plain})"
               else diff rep ln "oracle" s!"case={cid} key=C10/size record of {k.length}+{body.length} bytes occupies {size} bytes (plain {plain}, compression allowed: {mayCompress})"
           let (sp', sr) := Spec.step scfgSpec st.spec (.set k body flag.toNat! (parseInt rev) ts.toNat!)
           let so : String := if sr == .stored then "STORED" else "NOT_STORED"
@@ -259,7 +260,7 @@ def run (lines : Array String) : IO Report := do
           if !(obs.startsWith so) then
             if colliding k then
               -- the write path takes the tree item of the key hash as this key's own old version, whichever key it belongs to
-              diff rep ln "oracle" s!"case={cid} key=C13/write-path-takes-other-keys-item delete of a colliding key: reference says {so}, reply {obs}"
+              diff rep ln "oracle" s!"case={cid} key=C13/{if st.safe then "safe/" else ""}write-path-takes-other-keys-item delete of a colliding key: reference says {so}, reply {obs}"
             else diff rep ln "oracle" s!"case={cid} key={opfx k}/delete-status spec={so} impl={obs}"
           if sr == .deleted && pos.isNone && obs.startsWith "DELETED" && !(colliding k) then
             diff rep ln "oracle" s!"case={cid} key={opfx k}/delete-not-written delete acknowledged but no tombstone record written"
@@ -284,7 +285,7 @@ def run (lines : Array String) : IO Report := do
           if m ≠ obs then diffIf st.groups.isEmpty rep ln "model" s!"case={cid} incr: model={m} impl={obs}"
           let (sp', sr) := Spec.step scfgSpec st.spec (.incr k (parseInt delta))
           let so : String := match sr with | .num v => s!"{v} " | _ => "ERR"
-          if !(obs.startsWith so) then diff rep ln "oracle" s!"case={cid} key={if colliding k then s!"C13/incr/{st.phase}" else "C01/incr-value"} spec={so} impl={obs}"
+          if !(obs.startsWith so) then diff rep ln "oracle" s!"case={cid} key={if colliding k then s!"C13/{if st.safe then "safe/" else ""}incr/{st.phase}" else "C01/incr-value"} spec={so} impl={obs}"
           let dv := if pos.isSome then (match AMap.get b'.tree (hash k) with | some it => AMap.set st.dataVer k it.ver | none => st.dataVer) else st.dataVer
           st := { st with buckets := st.buckets.set! bkt b', spec := sp', dataVer := dv }
           st := noteWrite st scfgSpec k pos size
@@ -306,7 +307,7 @@ def run (lines : Array String) : IO Report := do
             if colliding k then
               let symptom := if obs == "ERR" then "error" else if obs == "MISS" then "live-key-missing"
                 else if fmt sr == "MISS" then "deleted-key-back" else "other-or-older-value"
-              diff rep ln "oracle" s!"case={cid} key=C13/{symptom}/{st.phase} get of a colliding key: reference {(fmt sr).take 80} reply {obs.take 80}"
+              diff rep ln "oracle" s!"case={cid} key=C13/{if st.safe then "safe/" else ""}{symptom}/{st.phase} get of a colliding key: reference {(fmt sr).take 80} reply {obs.take 80}"
             else diff rep ln "oracle" s!"case={cid} key={opfx k}/get-value spec={(fmt sr).take 100} impl={obs.take 100}"
           ok rep
     | ["meta", kh] =>
